@@ -159,6 +159,22 @@ func c04TablePrograms() []c4prog {
 			short("k1", ts.TInt, il(0)),
 			ts.For{Kind: ts.ForEver, Body: []ts.Stmt{ts.IncDec{Name: "k1", Inc: true}, ts.If{Cond: b.tb(ts.Cmp{Op: ">", L: iv("k1"), R: il(2)}), Then: []ts.Stmt{ts.Break{}}}, pr(sl("e"), iv("k1"))}}}, nil
 	})
+	// conditions whose operand is a BUILTIN applied directly to a call (len(f()), itoa(f())): the call runs once per evaluation
+	// of the condition, like any other operand - a loop condition once per iteration
+	add("conditions-over-builtins", func(b *c4b) ([]ts.Stmt, []ts.Stmt) {
+		mk := ts.FuncDef{Name: "mk", Rets: []ts.Type{ts.TIntS}, Body: []ts.Stmt{pr(sl("mk")), ts.Return{Vals: []ts.Expr{ts.SliceLit{Elem: ts.TInt, Elems: []ts.Expr{il(1), il(2), il(3)}}}}}}
+		mkc := func() ts.Expr { return ts.Call{Name: "mk", Rets: []ts.Type{ts.TIntS}} }
+		return []ts.Stmt{
+			short("i2", ts.TInt, il(0)),
+			ts.For{Kind: ts.ForCond, Cond: ts.Cmp{Op: "<", L: iv("i2"), R: ts.Len{X: b.tstr(sl("abc"))}}, Body: []ts.Stmt{ts.IncDec{Name: "i2", Inc: true}, pr(sl("b"), iv("i2"))}},
+			ts.For{Kind: ts.ForClause, Init: short("j2", ts.TInt, il(0)), Cond: ts.Cmp{Op: "<", L: iv("j2"), R: ts.Len{X: mkc()}}, Post: ts.IncDec{Name: "j2", Inc: true}, Body: []ts.Stmt{pr(sl("c"), iv("j2"))}},
+			ts.For{Kind: ts.ForClause, Init: short("k2", ts.TInt, il(0)), Cond: ts.Cmp{Op: ">", L: ts.Len{X: mkc()}, R: iv("k2")}, Post: ts.IncDec{Name: "k2", Inc: true}, Body: []ts.Stmt{pr(sl("d"), iv("k2"))}},
+			ts.For{Kind: ts.ForClause, Init: short("m2", ts.TInt, il(0)), Cond: ts.Cmp{Op: "!=", L: ts.Itoa{X: b.ti(iv("m2"))}, R: sl("2")}, Post: ts.IncDec{Name: "m2", Inc: true}, Body: []ts.Stmt{pr(sl("e"), iv("m2"))}},
+			ts.If{Cond: ts.Cmp{Op: "==", L: ts.Len{X: b.tstr(sl("ab"))}, R: il(5)}, Then: []ts.Stmt{pr(sl("then"))},
+				Elifs: []ts.ElseIf{{Cond: ts.Cmp{Op: "==", L: ts.Len{X: mkc()}, R: il(3)}, Body: []ts.Stmt{pr(sl("elif"))}}}, Else: []ts.Stmt{pr(sl("else"))}, HasElse: true},
+			pr(ts.Len{X: mkc()}, ts.Itoa{X: ts.Len{X: b.tstr(sl("xyz"))}}),
+		}, []ts.Stmt{mk}
+	})
 	// loops that are LEFT early (return from an inner loop, break of an outer loop) and entered again: every entry starts
 	// with the initialisation and the condition, never with the increment of the previous visit
 	add("loops-re-entered", func(b *c4b) ([]ts.Stmt, []ts.Stmt) {
